@@ -68,6 +68,7 @@ type profile struct {
 	defect                                                                     string // C10: inject one defect
 	calls                                                                      int    // number of calls in the history (C11)
 	oneStrategy                                                                string // "", "R", "A"
+	unboundValues                                                              bool   // put values bound to no object type under interface-typed fields (C10: the interface as container)
 	fullDepth                                                                  bool   // never lower ggql.MaxResolveDepth (leaked Go values cannot be written as JSON: C07)
 }
 
@@ -344,6 +345,15 @@ func genGraph(r *rand.Rand, s *gSchema, p *profile) *gGraph {
 			g.nextID++
 		}
 	}
+	// values whose Go type is bound to no object type (id 900): under an interface-typed field they are
+	// evaluated in the interface itself - its fields, its arguments, __typename = the interface's name
+	if s.byID[28] != nil && !genCommon && !p.noWrongType && chance(r, 0.25) || s.byID[28] != nil && p.unboundValues && chance(r, 0.5) {
+		g.strat[900] = !g.any || chance(r, 0.5)
+		for i, n := 0, 1+r.Intn(2); i < n; i++ {
+			g.byType[900] = append(g.byType[900], g.nextID)
+			g.nextID++
+		}
+	}
 	var valueFor func(t gTy, depth int) sx.S
 	valueFor = func(t gTy, depth int) sx.S {
 		switch t.kind {
@@ -453,6 +463,9 @@ func genGraph(r *rand.Rand, s *gSchema, p *profile) *gGraph {
 			if len(poss) == 0 {
 				return "nil"
 			}
+			if t.id == 28 && len(g.byType[900]) > 0 && chance(r, 0.4) {
+				return sx.L("node", sx.A(pick(r, g.byType[900])))
+			}
 			ct := pick(r, poss)
 			if !p.noWrongType && chance(r, 0.03) {
 				ct = pick(r, s.objects()) // possibly not a member / implementer
@@ -463,10 +476,20 @@ func genGraph(r *rand.Rand, s *gSchema, p *profile) *gGraph {
 			return sx.L("node", sx.A(pick(r, g.byType[ct])))
 		}
 	}
-	for _, o := range s.objects() {
+	objs := s.objects()
+	if len(g.byType[900]) > 0 {
+		objs = append(objs, 900)
+	}
+	for _, o := range objs {
 		for _, id := range g.byType[o] {
 			n := []sx.S{"node", sx.A(id), sx.A(o)}
-			for _, f := range s.byID[o].fields {
+			var fields []gField
+			if o == 900 {
+				fields = s.byID[28].fields // an unbound value answers the fields of the interface
+			} else {
+				fields = s.byID[o].fields
+			}
+			for _, f := range fields {
 				var b sx.S
 				echo := -1
 				for _, a := range f.args {
@@ -1007,7 +1030,12 @@ func genExecCase(r *rand.Rand, p *profile, id string) Case {
 		calls = append(calls, sx.L("call", name, vs))
 	}
 	strat := []sx.S{"strat"}
-	for _, o := range s.objects() {
+	sobjs := s.objects()
+	if len(g.byType[900]) > 0 {
+		sobjs = append(sobjs, 900)
+		d.feats["value-bound-to-no-object-type"] = true
+	}
+	for _, o := range sobjs {
 		st := "A"
 		if g.strat[o] {
 			st = "R"
@@ -1311,7 +1339,7 @@ func c09Gen(r *rand.Rand, tier string) []Case {
 	return cases
 }
 
-var profC10 = profile{noWrongType: true, pFail: 0.03, pIll: 0.01, pDir: 0.15, pAlias: 0.3, pFrag: 0.12, pInline: 0.15, pArgs: 0.85, pAny: 0.4, pBadCall: 0.0, pNullObj: 0.05, maxDepth: 4, calls: 1}
+var profC10 = profile{noWrongType: true, unboundValues: true, pFail: 0.03, pIll: 0.01, pDir: 0.15, pAlias: 0.3, pFrag: 0.12, pInline: 0.15, pArgs: 0.85, pAny: 0.4, pBadCall: 0.0, pNullObj: 0.05, maxDepth: 4, calls: 1}
 
 // c10Gen: valid documents with exactly one injected defect of the property's catalogue.
 func c10Gen(r *rand.Rand, tier string) []Case {
